@@ -394,8 +394,20 @@ func (fc *FnCtx) applyContract(con *Contract, c *ssa.CallCommon, args []Val, rt 
 		}
 		top := fc.topCtx()
 		props := r.Tags
-		fc.vc.oblige(&Obligation{Name: fc.oblName("pre", callee+"["+lbl+"]"), Kind: "pre", Props: props, Func: shortName(top.fn),
-			Guard: fc.cur.reach, Goal: t, Desc: "precondition of " + callee + ": " + r.Src})
+		assumed := false
+		if top.con != nil {
+			for _, a := range top.con.AssumePre {
+				if a == lbl || a == r.Label || strings.HasSuffix(lbl, "."+a) {
+					assumed = true
+				}
+			}
+		}
+		if !assumed {
+			fc.vc.oblige(&Obligation{Name: fc.oblName("pre", callee+"["+lbl+"]"), Kind: "pre", Props: props, Func: shortName(top.fn),
+				Guard: fc.cur.reach, Goal: t, Desc: "precondition of " + callee + ": " + r.Src})
+		} else {
+			fc.vc.trust("assumed callee precondition " + lbl + " of " + callee + " (protocol-conformant traffic)")
+		}
 		fc.vc.assume(fc.cur.reach, t)
 	}
 	// effects
@@ -597,6 +609,18 @@ func (fc *FnCtx) modTargets(items []ast.Expr, se *SpecEnv) ([]modTarget, error) 
 				}
 				readsOf = append(readsOf, p.T)
 				_ = p
+			case "typesof":
+				// typesof(pkg): every field / element component of the struct types of a package (the unknown
+				// concrete object behind an interface value of that package, e.g. a decoded wire message)
+				id, ok := x.Args[0].(*ast.Ident)
+				if !ok {
+					return nil, fmt.Errorf("typesof needs a package name")
+				}
+				for _, comp := range sortedKeys(fc.cur.sorts) {
+					if strings.HasPrefix(comp, "F."+id.Name+".") || strings.HasPrefix(comp, "E."+id.Name+".") || strings.HasPrefix(comp, "E.ptr."+id.Name+".") || strings.HasPrefix(comp, "E.sl."+id.Name+".") {
+						add(comp, fc.cur.sorts[comp], "")
+					}
+				}
 			case "allchans":
 				pkg := fc.prog.pkgByPath(se.pkgPath)
 				t, err := resolveType(pkg, x.Args[0])
@@ -660,8 +684,9 @@ func (fc *FnCtx) applyModifies(con *Contract, se *SpecEnv, pre *State) error {
 	// reads(r): the callee reads some number of bytes from r; the tee chain below r sees the same bytes
 	for _, rd := range fc.lastReads {
 		d := fc.vc.fresh("nread.call", "Int")
-		fc.vc.assume(fc.cur.reach, "(<= 0 "+d+")")
-		fc.readBytes(rd, d)
+		fl := fc.vc.fresh("nfail.call", "Int")
+		fc.vc.assume(fc.cur.reach, "(and (<= 0 "+d+") (<= 0 "+fl+") (<= "+fl+" 1))")
+		fc.readBytesF(rd, d, fl)
 	}
 	frontier := fc.alloc()
 	// the callee may allocate
@@ -967,7 +992,7 @@ func (fc *FnCtx) staticModComps(con *Contract) []string {
 		out = append(out, t.comp)
 	}
 	if len(fc.lastReads) > 0 {
-		out = append(out, ghConsumed, ghCount)
+		out = append(out, ghConsumed, ghCount, ghFailed)
 	}
 	return out
 }
@@ -1134,7 +1159,7 @@ func (fc *FnCtx) enterLoop(li *loopInfo, in *State) error {
 			li.modRefs[t.comp] = append(li.modRefs[t.comp], t.refs...)
 		}
 		if len(fc.lastReads) > 0 {
-			for _, g := range []string{ghConsumed, ghCount} {
+			for _, g := range []string{ghConsumed, ghCount, ghFailed} {
 				modAllComps[g] = true
 			}
 			li.readsAll = true
@@ -1281,7 +1306,7 @@ func (fc *FnCtx) backEdge(from, head *ssa.BasicBlock) error {
 					continue
 				}
 			}
-			if li.readsAll && (comp == ghConsumed || comp == ghCount) {
+			if li.readsAll && (comp == ghConsumed || comp == ghCount || comp == ghFailed) {
 				continue
 			}
 			goal := frameFormula(fc.vc, inT, nowT, li.inAlloc, modTarget{comp: comp, refs: li.modRefs[comp], all: fc.loopModAll(li, comp)})
